@@ -130,12 +130,63 @@ def case_full(case):
         except Exception as e:      # bridge failure is reported, never silently dropped
             split_calls.append({"bridge_error": type(e).__name__ + ": " + str(e)[:200]})
         return lin, inhom, nonlin
-    Shape.split_lin_inhom_nonlin = staticmethod(rec_split)
+    from_ode_calls = []
+    cur = {}
+    orig_from_ode = Shape.from_ode.__func__
+
+    def rec_from_ode(cls, symbol, definition, initial_values, all_variable_symbols=None, **kw):
+        cur.clear()
+        cur["active"] = True
+        try:
+            sh = orig_from_ode(cls, symbol, definition, initial_values, all_variable_symbols=all_variable_symbols, **kw)
+        finally:
+            cur["active"] = False
+        if "split" in cur and all_variable_symbols is not None and len(from_ode_calls) < 12:
+            lin, inhom, nonlin, xs = cur["split"]
+            from_ode_calls.append({"symbol": symbol, "order": sh.order, "x": [str(v) for v in xs], "lin": list(lin), "inhom": inhom, "nonlin": nonlin,
+                                   "shape_factors": list(sh.derivative_factors), "shape_inhom": sh.inhom_term, "shape_nonlin": sh.nonlin_term,
+                                   "shape_expr": sh.reconstitute_expr()})
+        return sh
+    Shape.from_ode = classmethod(rec_from_ode)
+    _rec_split_inner = rec_split
+
+    def rec_split2(expr, x, parameters=None):
+        r = _rec_split_inner(expr, x, parameters=parameters)
+        if cur.get("active") and "split" not in cur:
+            cur["split"] = (r[0], r[1], r[2], list(x))
+        return r
+    Shape.split_lin_inhom_nonlin = staticmethod(rec_split2)
     try:
         tr = trace.traced_analysis(indict, stop_before_propagators=bool(case.get("stop")), **flags)
     finally:
         Shape.split_lin_inhom_nonlin = staticmethod(orig_split)
+        Shape.from_ode = classmethod(orig_from_ode)
     out["split_calls"] = split_calls
+    try:
+        import random as _r
+        rng_f = _r.Random(case.get("pt_seed", 1) + 99)
+        foc = []
+        for c_ in from_ode_calls:
+            syms = set()
+            for e_ in list(c_["lin"]) + [c_["inhom"], c_["nonlin"], c_["shape_inhom"], c_["shape_nonlin"], c_["shape_expr"]] + list(c_["shape_factors"]):
+                syms |= sympy.sympify(e_).free_symbols
+            syms |= {sympy.Symbol(v) for v in c_["x"]}
+            pt_f = numeval.make_point(syms, rng_f)
+            ev = lambda e_: numeval.val(e_, pt_f)      # noqa: E731
+            vals_f = {"factors": [ev(e_) for e_ in c_["lin"]], "x": [ev(sympy.Symbol(v)) for v in c_["x"]], "inhom": ev(c_["inhom"]), "nonlin": ev(c_["nonlin"])}
+            # `all_variable_symbols.index(sym)`: the first position of each of the shape's own symbols (the list may hold them twice)
+            local = [c_["x"].index(c_["symbol"] + marker * k) for k in range(c_["order"])]
+            real = {"local_factors": [ev(e_) for e_ in c_["shape_factors"]], "inhom": ev(c_["shape_inhom"]), "nonlin": ev(c_["shape_nonlin"]), "reconstituted": ev(c_["shape_expr"])}
+            flat = vals_f["factors"] + vals_f["x"] + [vals_f["inhom"], vals_f["nonlin"]] + real["local_factors"] + [real["inhom"], real["nonlin"], real["reconstituted"]]
+            if any(v is None for v in flat):
+                continue
+            foc.append({"payload": {"factors": [numeval.fs(v) for v in vals_f["factors"]], "x": [numeval.fs(v) for v in vals_f["x"]], "local": local,
+                                    "inhom": numeval.fs(vals_f["inhom"]), "nonlin": numeval.fs(vals_f["nonlin"])},
+                        "real": {"local_factors": [numeval.fs(v) for v in real["local_factors"]], "inhom": numeval.fs(real["inhom"]), "nonlin": numeval.fs(real["nonlin"]),
+                                 "reconstituted": numeval.fs(real["reconstituted"])}, "symbol": c_["symbol"]})
+        out["from_ode_calls"] = foc
+    except Exception as e:
+        out["from_ode_error"] = type(e).__name__ + ": " + str(e)[:150]
     out["error"] = tr.get("error")
     out["stopped"] = bool(tr.get("stopped"))
     if "system" in tr:
